@@ -189,6 +189,21 @@ func (c *compiler) run(tok *token) (ins []instruction, slots int, err error) {
 			err = fmt.Errorf("%v: %v", c.cur.Pos, r)
 		}
 	}()
+	// the functions this unit declares exist before any body is compiled: a use that precedes the declaration
+	// (declaration order does not matter) must not resolve to a builtin of the same name
+	exp := c.ExportName
+	for _, t := range tok.Tokens {
+		switch {
+		case t.Symbol == "package" && len(t.Tokens) > 0:
+			exp = t.Tokens[len(t.Tokens)-1].Text
+		case t.Symbol == "function" && len(t.Tokens) > 0:
+			key := t.Tokens[0].Text
+			if exp != "" {
+				key = exp + "." + key
+			}
+			c.Globals.Index(key)
+		}
+	}
 	res := c.optimize(c.compileAll(tok.Tokens))
 	return res, c.Locals.Cap(), nil
 }
